@@ -321,11 +321,23 @@ func namingTable(c *Ctx, na *gen.NameAlloc) {
 		{"type parameter", leafT("*go/types.TypeParam"), "v"},
 	}
 	for _, tc := range cases {
-		m := interp.New(c.Prog)
-		v, err := m.CallFunc(token.NoPos, namer, nil, []interp.Value{tc.v})
-		got := interp.Show(v)
-		if s, ok := v.(*interp.Sym); ok {
-			got = s.Flat()
+		vals, errs := allPaths(c.Prog, func(m *interp.Machine) (interp.Value, error) {
+			return m.CallFunc(token.NoPos, namer, nil, []interp.Value{tc.v})
+		})
+		var err error
+		got := ""
+		for pi, v := range vals {
+			if errs[pi] != nil {
+				err = errs[pi]
+				break
+			}
+			g := interp.Show(v)
+			if s, ok := v.(*interp.Sym); ok {
+				g = s.Flat()
+			}
+			if pi == 0 || g != tc.want {
+				got = g
+			}
 		}
 		if err != nil {
 			p := pos
